@@ -65,6 +65,9 @@ struct St {
     th: Vec<ThState>,
     prio: Vec<u64>,
     rng: Rng,
+    /// separate stream for service times, so that replaying explicit decisions (which draws
+    /// nothing from `rng`) sees the same clock
+    rng_time: Rng,
     strategy: Strategy,
     /// (thread, site) for every scheduling point passed
     trace: Vec<(u8, u8)>,
@@ -252,7 +255,7 @@ pub fn point(site: Site) {
     }
     // service time of the step just executed
     if st.service_max_us > 0 && matches!(site, Site::AfterCall | Site::Txn | Site::Chunk) {
-        let d = st.rng.below(st.service_max_us as u64 + 1) as i64;
+        let d = st.rng_time.below(st.service_max_us as u64 + 1) as i64;
         advance_us(d);
     }
     // stall fault: this thread stops for a long simulated time, holding what it holds
@@ -339,6 +342,7 @@ where
             th: vec![ThState::Runnable; n],
             prio,
             rng,
+            rng_time: Rng::stream(plan.seed, "service-time"),
             strategy: plan.strategy.clone(),
             trace: Vec::new(),
             choices: Vec::new(),
